@@ -345,8 +345,16 @@ static inline int64_t local_pow(int b, int n)
     return res;
 }
 
+#ifndef WITHOUT_FLOAT64
+float64_t igris_atof64(const char *nptr, char **endptr);
+#endif
+
 float32_t igris_atof32(const char *str, char **pend)
 {
+#ifndef WITHOUT_FLOAT64
+    // one grammar for both widths: sign, digits, fraction, exponent
+    return (float32_t)igris_atof64(str, pend);
+#else
     if (!igris_isdigit(*str) && *str != '-')
     {
         return 0;
@@ -377,6 +385,7 @@ float32_t igris_atof32(const char *str, char **pend)
             *pend = end;
         return minus ? -(float)u : (float)u;
     }
+#endif
 }
 
 #ifndef WITHOUT_FLOAT64
